@@ -294,9 +294,14 @@ var vxC11RootPaths = []string{
 
 // vxC11Serve serves one symbolic request on route rt and checks the outcome.
 // rootPaths are the request paths tried on the "/" subtree.
+//
+// rootPaths == nil selects the "subtree" mode: a configured server with an
+// administrator, a symbolic request path, no credentials or a session cookie,
+// one request shape.
 func vxC11Serve(rt vxC11Route, full bool, rootPaths []string) {
 	vx.Note(rt.pattern)
 	wide := full && vx.Thorough()
+	subtree := rootPaths == nil
 	install := vxC11IsInstall(rt.pattern)
 	decl := rt.declared
 	if decl == "-" {
@@ -304,10 +309,13 @@ func vxC11Serve(rt vxC11Route, full bool, rootPaths []string) {
 	}
 
 	// --- state of the server ---
-	firstRun := vx.Choice("firstRun", 2) == 1
+	firstRun, admin := false, true
+	if !subtree {
+		firstRun = vx.Choice("firstRun", 2) == 1
+		admin = vx.Choice("adminExists", 2) == 1
+	}
 	globalContext.firstRun = firstRun
 	GLMode = false
-	admin := vx.Choice("adminExists", 2) == 1
 	var users []webUser
 	if admin {
 		users = []webUser{{Name: "u", PasswordHash: "h"}}
@@ -329,14 +337,15 @@ func vxC11Serve(rt vxC11Route, full bool, rootPaths []string) {
 	// --- the request: path ---
 	path := rt.pattern
 	switch {
-	case rt.pattern == "/":
-		if wide && vx.Choice("symbolicPath", 2) == 1 {
-			n := 1 + vx.Choice("pathLen", 12)
-			path = vx.String("path", n)
-			vx.Assume(path[0] == '/')
-		} else {
-			path = rootPaths[vx.Choice("path", len(rootPaths))]
+	case subtree:
+		// pattern + any suffix ("/" + up to 11 bytes; other subtrees + up to 4)
+		n := 12
+		if rt.pattern != "/" {
+			n = 5
 		}
+		path = rt.pattern + vx.String("path", vx.Choice("pathLen", n))
+	case rt.pattern == "/":
+		path = rootPaths[vx.Choice("path", len(rootPaths))]
 	case vxC11HasSuffix(rt.pattern, "/"):
 		// a subtree pattern
 		path = rt.pattern + []string{"", "client-1"}[vx.Choice("path", 2)]
@@ -349,7 +358,10 @@ func vxC11Serve(rt vxC11Route, full bool, rootPaths []string) {
 	hdr := http.Header{}
 	cookie, basic := 0, 0
 	expire := uint32(0)
-	if admin && (!firstRun || wide) {
+	switch {
+	case subtree:
+		cookie = vx.Choice("cookie", 2)
+	case admin && (!firstRun || wide):
 		cookie = vx.Choice("cookie", 3)
 		basic = vx.Choice("basic", 3)
 	}
@@ -385,7 +397,7 @@ func vxC11Serve(rt vxC11Route, full bool, rootPaths []string) {
 	// through to the method guard; refused requests get one shape (symbolic
 	// contents all the same).
 	shapes := wide
-	if !shapes {
+	if !shapes && !subtree {
 		switch {
 		case install:
 			shapes = firstRun
